@@ -1,5 +1,34 @@
-# C12 (CriticMarkup accept/reject, erase layer): NOT REGISTERED.  The draft spec C12/cm.c (token-tree shape families single pair /
-# substitution / unmatched marker / stray ~> / nested, ghost-sink DString, reference result by spec code) and the draft unit table
-# defs.py.draft exist, but every unit ran out of 14 GB / 600 s in CBMC 6.11 (symbolic text-run lengths make the token chain and all
-# offsets symbolic; recursion accept_token <-> accept_token_tree has to be bounded with --unwindset).  Next step: concrete run
-# lengths per unit (one unit per length vector) so that the chain shape is constant under symbolic execution.
+# ---------------------------------------------------------------- C12 CriticMarkup accept / reject (erase layer)
+_C12_SHAPE = "token tree has the shape produced by mmd_critic_tokenize_string + token_pairs_match_pairs_inside_token(PRUNE_MATCH): contiguous chain, pair token with children opener..closer, mates set, unmatched markers with mate==NULL (ASSUMED: Aho-Corasick tokenizer and pair matcher are out of CBMC's reach, DESIGN.md section 2)"
+_C12_FN = ["accept_token_tree", "accept_token", "accept_token_tree_sub", "reject_token_tree", "reject_token", "reject_token_tree_sub"]
+_C12_UNW = "accept_token_tree.0:7,reject_token_tree.0:7,accept_token_tree_sub.0:7,accept_token_tree_sub.1:7,reject_token_tree_sub.0:7,reject_token_tree_sub.1:7"
+
+
+def _c12(_h, _nm, _tier, _shape, _tl, extra=()):
+    U(_nm, ["C12", "C01"], _h, ["C12/cm.c"], ["critic_markup.c"], plain=True, lib=("lib/ds_sink.c",),
+      defines=["-DTB=2", "-DSINK_CAP=40"] + ["-DTL%d=%d" % (i, v) for i, v in enumerate(_tl)] + list(extra), kind="bounded", tier=_tier,
+      bounds={"shape": _shape, "text run lengths": list(_tl), "text bytes": "symbolic non-NUL", "accept/reject": "both (symbolic)", "unwind": 42},
+      cbmc_flags=["--unwind", "42", "--unwindset", _C12_UNW, "--depth", "100000"],
+      functions=_C12_FN, callees={"d_string_erase/d_string_new": "ghost sink (DString by specification, C19)"},
+      native=None, min_obligations=20, timeout=600, cost=30, assumptions=[NOFAIL, _C12_SHAPE])
+
+
+import itertools as _it
+for _tl in _it.product((0, 2), repeat=3):
+    _c12("h_single", "c12_single_%d%d%d" % _tl, "quick", "text . PAIR(ADD|DEL|HI|COM around one text run) . text", _tl + (0,))
+for _tl in _it.product((0, 1), repeat=4):
+    _c12("h_sub", "c12_sub_%d%d%d%d" % _tl, "quick", "text . {~~ old ~> new ~~} . text", _tl)
+for _tl in _it.product((0, 1), repeat=2):
+    _c12("h_unmatched", "c12_unmatched_%d%d" % _tl, "quick", "text . unmatched opener|closer of any of the 5 kinds . text", _tl + (0, 0))
+    _c12("h_stray_div", "c12_stray_div_%d%d" % _tl, "quick", "text . stray ~> . text", _tl + (0, 0))
+for _tl in ((1, 1, 1, 1), (0, 1, 1, 0), (1, 0, 1, 1), (1, 1, 0, 1), (0, 0, 1, 0), (0, 0, 0, 0)):
+    _c12("h_nested", "c12_nested_%d%d%d%d" % _tl, "quick", "text . OUTER(ADD|DEL|HI){ text INNER(ADD|DEL|HI|COM){text} text }", _tl)
+
+PROPS["C12"] = {
+    "level": "other",
+    "explanation": "The ERASE LAYER of critic_markup.c (accept_token_tree/accept_token/accept_token_tree_sub and the reject twins, the real functions) is checked on well-formed CriticMarkup token trees built by the harness in exactly the shape the tokenizer + pair matcher produce: after accept (reject) the string equals, byte for byte, the reference result computed by spec code on the same shape (ghost index), for both modes, all five mark kinds, marks nested in ADD/DEL/HI, unmatched markers (left untouched) and a stray '~>'.  Bounded: one unit per concrete vector of text-run lengths, text bytes symbolic; DString is the ghost sink (C19).",
+    "slice": "accept_token_tree, accept_token, accept_token_tree_sub, reject_token_tree, reject_token, reject_token_tree_sub",
+    "not_reached": "mmd_critic_tokenize_string (Aho-Corasick) and the pair matcher on CM tokens (assumed by the shape), critic_parse_substring, idempotence (second pass), the writers' PAIR_CRITIC_* arms and the CLI -a/-r",
+    "trusted_base": ["cbmc/goto-cc 6.11.0 (MiniSat2)", "lib/ds_sink.c as the DString specification"],
+    "assumptions": [NOFAIL, _C12_SHAPE],
+}
